@@ -655,6 +655,19 @@ impl VisitMut for Pre<'_> {
                             None
                         }
                     }
+                } else if name == "then_some" && args.len() == 1 {
+                    let (c, v) = (self.lean(&mc.receiver), self.lean(&args[0]));
+                    Some(self.w.placeholder(format!("(if {c} then some {v} else none)")))
+                } else if name == "then" && args.len() == 1 && matches!(&args[0], Expr::Closure(c) if c.inputs.is_empty()) {
+                    // `cond.then(|| value)`
+                    let Expr::Closure(cl) = &args[0] else { unreachable!() };
+                    let (c, v) = (self.lean(&mc.receiver), self.lean(&cl.body));
+                    if v.contains('←') {
+                        *self.err = Some("unsupported: fallible closure in `then`".into());
+                        None
+                    } else {
+                        Some(self.w.placeholder(format!("(if {c} then some {v} else none)")))
+                    }
                 } else if (name == "and_then" || name == "map") && args.len() == 1 {
                     if let Some((p, b)) = self.closure1(&args[0]) {
                         let recv = self.lean(&mc.receiver);
